@@ -1,6 +1,7 @@
 package main
 
 import (
+	"strconv"
 	"go/token"
 	"fmt"
 	"go/types"
@@ -336,6 +337,33 @@ func (e *Engine) verifyFuncOpts(key string, o RunOpts) (fr *FuncResult) {
 			}
 			vc.oblige(fmt.Sprintf("%s#cursor-flow:%s.checked", key, strings.TrimSpace(cf)), "site", "true", "true", fmt.Sprintf("%s:%d", shortPath(ct.File), ct.Line))
 		}
+		// `once call C#k`: that call site is executed at most once per invocation (it is not on a cycle
+		// of the control flow graph)
+		for _, oc := range ct.Raw["once"] {
+			pat := strings.TrimSpace(strings.TrimPrefix(strings.TrimSpace(oc), "call"))
+			want := 0
+			if h := strings.LastIndex(pat, "#"); h >= 0 {
+				if k, err := strconv.Atoi(pat[h+1:]); err == nil {
+					want, pat = k, pat[:h]
+				}
+			}
+			found := false
+			if x.trace != nil {
+				for _, c := range x.trace.calls {
+					if c.Fn == fn && c.Depth == 0 && c.Instr != nil && calleeMatch(pat, c.Callee) && (want == 0 || c.Ord == want) {
+						found = true
+						g := "true"
+						if onCycle(c.Instr.Block()) {
+							g = "false"
+						}
+						vc.oblige(fmt.Sprintf("%s#once:%s#%d", key, pat, c.Ord), "site", "true", g, x.eng.pos(c.Pos))
+					}
+				}
+			}
+			if !found {
+				vc.oblige(fmt.Sprintf("%s#once-unmatched:%s#%d", key, pat, want), "site", "true", "false", fmt.Sprintf("%s:%d", shortPath(ct.File), ct.Line))
+			}
+		}
 		// a site assertion that matches no call site says nothing (renamed callee, wrong ordinal):
 		// reported as a failed obligation rather than silently dropped
 		for k, sa := range ct.Asserts {
@@ -597,4 +625,24 @@ func cursorFlowViolations(fn *ssa.Function, field string) []flowBad {
 		}
 	}
 	return out
+}
+
+// onCycle: the block can reach itself.
+func onCycle(b *ssa.BasicBlock) bool {
+	seen := map[*ssa.BasicBlock]bool{}
+	var st []*ssa.BasicBlock
+	st = append(st, b.Succs...)
+	for len(st) > 0 {
+		n := st[len(st)-1]
+		st = st[:len(st)-1]
+		if n == b {
+			return true
+		}
+		if seen[n] {
+			continue
+		}
+		seen[n] = true
+		st = append(st, n.Succs...)
+	}
+	return false
 }
